@@ -611,14 +611,43 @@ inline void installCrashCapture(const std::string &path, const std::string &sub)
         signal(sig, crashSignal);
 }
 
+// Watchdog: a case that does not come back is a failure of its own kind (a parser spinning forever, a handler waiting for
+// something that never happens), not something a wall-clock budget may swallow.  The limit is far above what any case of
+// any sub-check takes on a loaded machine (--param case_timeout=<seconds>, 0 switches it off).
+inline int &caseTimeoutSeconds()
+{
+    static int s = 180;
+    return s;
+}
+inline void hangSignal(int)
+{
+    static const char msg[] = "\nVH-HANG: the case being executed did not finish within the per-case time limit\n";
+    (void)!::write(2, msg, sizeof msg - 1);
+    crashDump();
+    _exit(124);
+}
+
 // run the body once on a tape; returns 0 pass, 1 fail (state().failure set), 2 known-skip
 inline int runOnce(const Sub &sub, Tape &t, Ctx &ctx)
 {
     ctx.beginCase();
     struct Guard {
-        Guard(const Tape *t) { currentTape() = t; }
-        ~Guard() { currentTape() = nullptr; }
+        Guard(const Tape *t)
+        {
+            currentTape() = t;
+            if (caseTimeoutSeconds() > 0) {
+                signal(SIGALRM, hangSignal);
+                alarm(unsigned(caseTimeoutSeconds()));
+            }
+        }
+        ~Guard()
+        {
+            alarm(0);
+            currentTape() = nullptr;
+        }
     } guard(&t);
+    if (ctx.params.count("case_timeout"))
+        caseTimeoutSeconds() = atoi(ctx.params.at("case_timeout").c_str());
     try {
         sub.body(t, ctx);
     } catch (KnownSkip &) {
